@@ -74,6 +74,7 @@ struct FwdMonitor : Observer {
     blocks_visited++;
     entered = s;
     entered_block = b;
+    if (!ref_vars.empty()) check_references_pending = true;
     std::string why;
     GItem g = G.member(inv(pre, b, true), s, vars, level_for(visits_pre, b), why);
     if (g != G_OK) {
@@ -86,35 +87,83 @@ struct FwdMonitor : Observer {
       stop = true;
     }
   }
-  bool array_focus = false; // C14: check every array statement where it happens
+  bool array_focus = false; // C14 / C15: check every array / region statement where it happens
+  static bool is_region_stmt(const Stmt &st) {
+    return st.kind == S_REGION_INIT || st.kind == S_MAKE_REF || st.kind == S_REF_STORE || st.kind == S_REF_LOAD || st.kind == S_REF_GEP || st.kind == S_REF_ASSUME || st.kind == S_REF_ASSERT || st.kind == S_REF_TO_INT ||
+           st.kind == S_INT_TO_REF || st.kind == S_REF_REMOVE || st.kind == S_REGION_COPY;
+  }
+  static bool focus_stmt(const Stmt &st) {
+    return st.kind == S_ARR_INIT || st.kind == S_ARR_STORE || st.kind == S_ARR_LOAD || st.kind == S_ARR_ASSIGN || st.kind == S_ARR_STORE_RANGE || is_region_stmt(st);
+  }
+  // C15: answers about references at block entries
+  std::vector<int> ref_vars;
+  long ref_queries = 0, ref_definite_answers = 0, alloc_site_answers = 0;
+  void check_references(int b, const CState &s) {
+    if (ref_vars.empty() || visits_ref[b]++ > 5) return;
+    z_abs_t a(inv(pre, b, true));
+    if (a.is_bottom()) return; // reported by the membership check
+    const Func &fn = p.funcs[0];
+    for (int rv : ref_vars) {
+      ref_queries++;
+      crab::domains::boolean_value nv = a.is_null_ref(B.vars[rv]);
+      bool is_null = s.v[rv] == 0;
+      if (nv.is_true() || nv.is_false()) ref_definite_answers++;
+      if ((nv.is_true() && !is_null) || (nv.is_false() && is_null)) {
+        ctx.violation("C15", std::string(dom.name) + "|is_null_ref|" + (nv.is_true() ? "definitely-null-but-not" : "definitely-non-null-but-null"), kase,
+                      "at the entry of " + fn.blocks[b].name + " reference " + p.vars[rv].name + " is " + (is_null ? "null" : "address " + i128str(s.v[rv])) + " but is_null_ref answers " + (nv.is_true() ? "true" : "false") +
+                          " on the reported invariant " + crab_str(a) + "\nconfig: " + config + "\n" + str(p));
+        stop = true;
+        return;
+      }
+      std::vector<crab::allocation_site> sites;
+      if (!is_null && a.get_allocation_sites(B.vars[rv], sites)) {
+        auto it = s.ref_site.find(rv);
+        if (it != s.ref_site.end() && it->second >= 0) {
+          alloc_site_answers++;
+          bool found = false;
+          for (auto &as : sites)
+            if (as.index() == B.site(it->second).index()) found = true;
+          if (!found) {
+            std::string l;
+            for (auto &as : sites) l += crab_str(as) + " ";
+            ctx.violation("C15", std::string(dom.name) + "|get_allocation_sites|missing", kase,
+                          "at the entry of " + fn.blocks[b].name + " reference " + p.vars[rv].name + " points to an object allocated at site as_" + std::to_string(it->second) + " but get_allocation_sites reports { " + l + "} on " + crab_str(a) +
+                              "\nconfig: " + config + "\n" + str(p));
+            stop = true;
+            return;
+          }
+        }
+      }
+    }
+  }
+  std::map<int, int> visits_ref;
   long array_stmt_checks = 0, loads_checked = 0;
   void check_array_statements(int b) {
     const Func &fn = p.funcs[0];
     bool any = false;
     for (auto &st : fn.blocks[b].stmts)
-      if (st.kind == S_ARR_INIT || st.kind == S_ARR_STORE || st.kind == S_ARR_LOAD || st.kind == S_ARR_ASSIGN || st.kind == S_ARR_STORE_RANGE) any = true;
+      if (focus_stmt(st)) any = true;
     if (!any || !ex) return;
     if (visits_arr[b]++ > 8) return;
     const std::vector<z_abs_t> &ss = states_of(b);
     for (size_t j = 0; j < fn.blocks[b].stmts.size() && j < ss.size() && j < ex->block_trace.size(); ++j) {
       const Stmt &st = fn.blocks[b].stmts[j];
       if (out_of_range(ex->block_trace[j])) return;
-      bool arr = st.kind == S_ARR_INIT || st.kind == S_ARR_STORE || st.kind == S_ARR_LOAD || st.kind == S_ARR_ASSIGN || st.kind == S_ARR_STORE_RANGE;
-      if (!arr) continue;
+      if (!focus_stmt(st)) continue;
       array_stmt_checks++;
       std::string why;
       GItem g = G_OK;
       if (ss[j].is_bottom()) {
         g = G_BOTTOM;
         why = "the abstract state is bottom although an execution reaches this point";
-      } else if (st.kind == S_ARR_LOAD) {
+      } else if (st.kind == S_ARR_LOAD || st.kind == S_REF_LOAD || st.kind == S_REF_TO_INT) {
         loads_checked++;
         std::vector<int> one{st.lhs};
         g = G.member(ss[j], ex->block_trace[j], one, 2, why);
         if (g == G_OK) g = G.member(ss[j], ex->block_trace[j], vars, 1, why);
       }
       if (g != G_OK) {
-        ctx.violation("C14", std::string(dom.name) + "|" + stmt_tag(st) + "|" + GITEM_NAMES[g], kase,
+        ctx.violation(is_region_stmt(st) ? "C15" : "C14", std::string(dom.name) + "|" + stmt_tag(st) + "|" + GITEM_NAMES[g], kase,
                       "inside block " + fn.blocks[b].name + ": after " + str(p, st) + " the state is " + state_str(p, ex->block_trace[j], vars) + " but the abstract state is " + crab_str(ss[j]) + " : " + why +
                           "\nblock entered as " + state_str(p, entered, vars) + " with pre-invariant " + crab_str(inv(pre, b, true)) + "\nconfig: " + config + "\n" + str(p));
         stop = true;
@@ -123,8 +172,14 @@ struct FwdMonitor : Observer {
     }
   }
   std::map<int, int> visits_arr;
+  bool check_references_pending = false;
   void leave_block(int f, int b, const CState &s) override {
     if (stop) return;
+    if (check_references_pending) {
+      check_references_pending = false;
+      check_references(b, entered);
+      if (stop) return;
+    }
     if (out_of_range(s)) return; // the next admit() ends this execution
     if (array_focus) check_array_statements(b);
     if (stop) return;
@@ -219,6 +274,8 @@ void run_fwd_case(Ctx &ctx, int64_t kase, Rng &r, const DomInfo &d) {
   caps.max_blocks = 4 + r.below(10);
   if (r.chance(1, 5)) caps.bools = false;
   bool array_focus = ctx.param("focus") == "arrays" && d.arrays;
+  bool region_focus = ctx.param("focus") == "regions" && d.regions;
+  if (region_focus) caps.calls = false;
   if (array_focus) caps.array_heavy = true;
   Prog p;
   GenCtx g(p, r, caps);
@@ -255,6 +312,155 @@ void run_fwd_case(Ctx &ctx, int64_t kase, Rng &r, const DomInfo &d) {
     auto &eb = p.funcs[0].blocks[p.funcs[0].entry].stmts;
     eb.insert(eb.begin(), pro.begin(), pro.end());
   }
+  std::vector<int> ref_vars, reg_vars;
+  std::map<int, int> reg_of; // the region every reference variable points into (fixed for the whole program)
+  if (region_focus) {
+    // regions of 32-bit integers, references into them; every reference is set in the entry block
+    std::vector<int> i32;
+    for (int v : g.ints)
+      if (p.vars[v].width == 32 && std::find(g.counters.begin(), g.counters.end(), v) == g.counters.end()) i32.push_back(v);
+    int nreg = 2 + (int)r.below(2);
+    for (int i = 0; i < nreg; ++i) reg_vars.push_back(g.new_var("R", T_REG_INT, 32));
+    int nref = 3 + (int)r.below(3);
+    for (int i = 0; i < nref; ++i) {
+      int rv = g.new_var("r", T_REF, 32);
+      ref_vars.push_back(rv);
+      reg_of[rv] = reg_vars[r.below(2)]; // the last region (if a third exists) is only the target of region_copy
+    }
+    int next_site = 0;
+    auto val_operand = [&](Stmt &s) {
+      if (r.coin() || i32.empty()) {
+        s.b_is_const = true;
+        s.k = r.range(-5, 20);
+      } else
+        s.b = i32[r.below(i32.size())];
+    };
+    auto same_region_ref = [&](int rv) {
+      std::vector<int> c;
+      for (int o : ref_vars)
+        if (o != rv && reg_of[o] == reg_of[rv]) c.push_back(o);
+      return c.empty() ? -1 : c[r.below(c.size())];
+    };
+    std::vector<Stmt> pro;
+    for (int R : reg_vars) {
+      Stmt s;
+      s.kind = S_REGION_INIT;
+      s.lhs = R;
+      pro.push_back(s);
+    }
+    for (size_t i = 0; i < ref_vars.size(); ++i) {
+      int rv = ref_vars[i];
+      Stmt s;
+      int other = same_region_ref(rv);
+      int how = (int)r.below(6);
+      if (how == 0) { // null
+        s.kind = S_REF_ASSUME;
+        s.op = 0;
+        s.a = rv;
+        pro.push_back(s);
+        continue;
+      }
+      bool other_defined = false;
+      for (size_t j = 0; j < i; ++j)
+        if (ref_vars[j] == other) other_defined = true;
+      if (how == 1 && other >= 0 && other_defined) { // alias / field of an earlier reference
+        s.kind = S_REF_GEP;
+        s.lhs = rv;
+        s.reg2 = reg_of[rv];
+        s.a = other;
+        s.b = reg_of[other];
+        s.e1 = LinExp(r.coin() ? 0 : 4 * r.range(1, 3));
+        pro.push_back(s);
+      } else {
+        s.kind = S_MAKE_REF;
+        s.lhs = rv;
+        s.a = reg_of[rv];
+        s.k = 16;
+        s.id = next_site++;
+        pro.push_back(s);
+      }
+      if (r.chance(3, 4)) {
+        Stmt st;
+        st.kind = S_REF_STORE;
+        st.lhs = rv;
+        st.a = reg_of[rv];
+        val_operand(st);
+        pro.push_back(st);
+      }
+    }
+    Func &f0 = p.funcs[0];
+    // random region statements in the other blocks
+    int ref_assert_id = 1000;
+    for (size_t bi = 0; bi < f0.blocks.size(); ++bi) {
+      if (!r.chance(2, 3)) continue;
+      int n = 1 + (int)r.below(3);
+      for (int k = 0; k < n; ++k) {
+        int rv = ref_vars[r.below(ref_vars.size())];
+        Stmt s;
+        int kind = (int)r.below(20);
+        if (kind < 6) {
+          s.kind = S_REF_STORE;
+          s.lhs = rv;
+          s.a = reg_of[rv];
+          val_operand(s);
+        } else if (kind < 12 && !i32.empty()) {
+          s.kind = S_REF_LOAD;
+          s.lhs = i32[r.below(i32.size())];
+          s.a = rv;
+          s.b = reg_of[rv];
+          if (reg_vars.size() > 2 && r.chance(1, 6)) s.b = reg_vars[2]; // through the copied region
+        } else if (kind < 14) {
+          int other = same_region_ref(rv);
+          if (other < 0) continue;
+          s.kind = S_REF_GEP;
+          s.lhs = rv;
+          s.reg2 = reg_of[rv];
+          s.a = other;
+          s.b = reg_of[other];
+          s.e1 = LinExp(r.coin() ? 0 : 4 * r.range(0, 3));
+        } else if (kind < 15) {
+          s.kind = S_MAKE_REF;
+          s.lhs = rv;
+          s.a = reg_of[rv];
+          s.k = 16;
+          s.id = r.coin() ? next_site++ : (int)r.below(std::max(1, next_site));
+        } else if (kind < 17) {
+          int other = same_region_ref(rv);
+          s.kind = r.chance(2, 3) ? S_REF_ASSUME : S_REF_ASSERT;
+          s.op = other >= 0 ? (int)r.below(4) : (int)r.below(2);
+          s.a = rv;
+          s.b = other;
+          if (s.kind == S_REF_ASSERT) s.id = ref_assert_id++;
+        } else if (kind < 18 && !i32.empty()) {
+          if (r.coin()) {
+            s.kind = S_REF_TO_INT;
+            s.lhs = i32[r.below(i32.size())];
+            s.a = rv;
+            s.b = reg_of[rv];
+          } else
+            continue; // int_to_ref would forge references to arbitrary addresses: out of model
+        } else if (kind < 19) {
+          s.kind = S_REF_REMOVE;
+          s.a = rv;
+          s.b = reg_of[rv];
+        } else if (reg_vars.size() > 2) {
+          s.kind = S_REGION_COPY;
+          s.lhs = reg_vars[2];
+          s.a = reg_vars[r.below(2)];
+        } else
+          continue;
+        auto &st = f0.blocks[bi].stmts;
+        // keep guards first and the counter update / unreachable last
+        size_t lo = 0, hi = st.size();
+        while (lo < hi && (st[lo].kind == S_ASSUME || st[lo].kind == S_BASSUME)) lo++;
+        while (hi > lo && (st[hi - 1].kind == S_UNREACH || st[hi - 1].kind == S_ASSIGN)) hi--;
+        size_t pos = lo + (hi > lo ? r.below(hi - lo + 1) : 0);
+        st.insert(st.begin() + pos, s);
+      }
+    }
+    auto &eb = f0.blocks[f0.entry].stmts;
+    eb.insert(eb.begin(), pro.begin(), pro.end());
+  }
   fix_widths(p);
   std::vector<int> ints = g.ints, bools = g.bools;
   std::vector<int> allvars;
@@ -262,6 +468,8 @@ void run_fwd_case(Ctx &ctx, int64_t kase, Rng &r, const DomInfo &d) {
     if (p.vars[v].ty == T_INT || p.vars[v].ty == T_BOOL) allvars.push_back((int)v);
 
   InitSpec I = make_init(p, r, ints, bools, d.relational, caps.big_consts, 5);
+  for (auto &st0 : I.states)
+    for (int rv : ref_vars) st0.v[rv] = 0; // unset references are null (the entry block sets all of them)
   // near-true assertions from concrete runs
   {
     Rng r2(r.next());
@@ -342,7 +550,8 @@ void run_fwd_case(Ctx &ctx, int64_t kase, Rng &r, const DomInfo &d) {
     FwdMonitor mon(ctx, p, *B, d, an, G, kase);
     mon.config = config;
     mon.vars = allvars;
-    mon.array_focus = array_focus;
+    mon.array_focus = array_focus || region_focus;
+    if (region_focus) mon.ref_vars = ref_vars;
     mon.assumptions = assum_spec.empty() ? nullptr : &assum_spec;
     // loop heads from the WTO
     {
@@ -385,6 +594,13 @@ void run_fwd_case(Ctx &ctx, int64_t kase, Rng &r, const DomInfo &d) {
     }
     mon.ex = nullptr;
     violated = mon.stop;
+    if (region_focus) {
+      ctx.count("region_statement_checks", mon.array_stmt_checks);
+      ctx.count("region_loads_checked", mon.loads_checked);
+      ctx.count("reference_queries", mon.ref_queries);
+      ctx.count("reference_definite_null_answers", mon.ref_definite_answers);
+      ctx.count("allocation_site_answers_checked", mon.alloc_site_answers);
+    }
     if (array_focus) {
       ctx.count("array_statement_checks", mon.array_stmt_checks);
       ctx.count("array_loads_checked", mon.loads_checked);
